@@ -16,14 +16,14 @@ def case_random(seed, dm):
     return ch, hist
 
 
-def judge(ch, hist, dm, engine, parsed, pend=0):
+def judge(ch, hist, dm, engine, parsed, pend=0, cancel_end=False):
     """-> (verdict, key, detail)"""
-    ref = c01lib.ref_run(ch, hist, pend)
+    ref = c01lib.ref_run(ch, hist, pend, cancel_end)
     v, k, d = c01lib.compare_case(ch, hist, dm, engine, parsed, ref)      # a reference that livelocks is compared as far as it got
     if v == 'deviation':
         # exact variant match: the implementation computes the transition domain from the static target list
         r2 = refscxml.Ref(ch, ('static_domain',))
-        r2.interpret(hist, pend)
+        r2.interpret(hist, pend, cancel_end)
         v2, k2, d2 = c01lib.compare_case(ch, hist, dm, engine, parsed, r2)
         if True:
             if v2 == 'ok' or (r2.diverged and ref.diverged and v2 == 'diverged'):
